@@ -322,6 +322,20 @@ Section AdjointProofs.
     apply (sum_scale_r Fth).
   Qed.
 
+  (* sum over source-frequency pairs, adjoint side: if for every pair x the
+     data-space pairing S x equals the model-space pairing of that pair's
+     contribution g x (brought to the model grid by ITS transpose VT_x), then
+     the total pairing equals the pairing with the ACCUMULATED contributions,
+     the chain factor being applied once after accumulation (as the code does) *)
+  Lemma adjoint_sum {X} (Xs : list X) (S : X -> K) (g : X -> IM -> K) (c v : IM -> K) :
+    (forall x, In x Xs -> re (S x) = dotM (fun m => c m * g x m) v) ->
+    re (sum Xs S) = dotM (fun m => c m * sum Xs (fun x => g x m)) v.
+  Proof.
+    intros H. rewrite re_sum. rewrite (sum_ext Xs _ _ H).
+    unfold Adjoint.dotM. rewrite (sum_exchange Fth). apply sum_ext. intros m _.
+    rewrite <- (sum_scale_l Fth), <- (sum_scale_r Fth). apply sum_ext. intros. ring.
+  Qed.
+
   (* ---------------------------------------------------------------------- *)
   (* C08                                                                      *)
   Section Sensitivity.
